@@ -358,7 +358,15 @@ impl Model {
                     self.files.insert(arg.to_string(), text.clone());
                     out.mutations.push(Mutation::Write(tmp.clone(), text));
                     out.mutations.push(Mutation::Rename(tmp.clone(), arg.to_string()));
-                    out.events.push(Ev::Renamed(tmp, arg.to_string()));
+                    // what the debouncer delivers depends on timing: temporary file and rename inside one debounce
+                    // window are folded into a single "created <target>" event (observed with the real watcher);
+                    // otherwise the rename arrives as an event carrying both paths.  Both are played (the
+                    // `dir_events` flag of the history selects which).
+                    if dir_events {
+                        out.events.push(Ev::Created(arg.to_string()));
+                    } else {
+                        out.events.push(Ev::Renamed(tmp, arg.to_string()));
+                    }
                     out.effective = true;
                     out.labels.push("atomic_save");
                     if was_broken {
@@ -467,6 +475,10 @@ pub fn random_ops(avoid_filter_hash: bool, avoid_recreate: bool) -> Vec<String> 
     v.push(format!("mv:{}>{}", "src/b_moved.lua", B));
     v.push(format!("mv:{}>{}", M1, "src/m1_away.lua"));
     v.push(format!("mv:{}>{}", "src/m1_away.lua", M1));
+    if !avoid_recreate {
+        v.push(format!("save:{}", MAIN));
+        v.push(format!("save:{}", B));
+    }
     for p in [C, NEW1, NEW2] {
         v.push(format!("edit:{}", p));
     }
